@@ -14,7 +14,8 @@ def Good (s : S) : Prop :=
   (s.loc = .freelist → s.st = 0 ∧ s.cbGen = none ∧ s.registered = false ∧ s.pc = .gone ∧ s.pollerHolds = false) ∧
   (s.loc = .owned → (s.cbGen = some s.gen ∨ (s.cbGen = none ∧ (s.pc = .resetDone ∨ s.pc = .gone))) ∧ s.pc ≠ .gone) ∧
   (s.registered = true → s.loc = .owned ∧ s.pc = .live) ∧
-  (s.st = 2 → s.pollerHolds = true) ∧
+  (s.st = 2 → s.pollerHolds = true ∨ s.ownerHolds = true) ∧
+  (s.ownerHolds = true → s.st = 2 ∧ s.pollerHolds = false ∧ s.loc = .owned ∧ (s.pc = .live ∨ s.pc = .detached)) ∧
   (s.pc = .allocated → s.st = 0) ∧ (s.pc = .live → s.st ≥ 1) ∧ (s.pc = .detached → s.st ≥ 1) ∧
   (s.pc = .unusedDone → s.st = 0) ∧ (s.pc = .resetDone → s.st = 0 ∧ s.cbGen = none) ∧
   (s.st ≥ 1 → s.loc = .owned ∧ s.cbGen = some s.gen) ∧ s.st ≤ 2 ∧
@@ -25,7 +26,7 @@ theorem good_init : Good init := by
 
 /-- one step preserves the invariant, provided stale Release calls carry the IsActive guard. -/
 theorem good_step (s s' : S) (a : Act) (h : Good s) (hg : guardedAct a = true) (hs : step s a = some s') : Good s' := by
-  obtain ⟨loc, st, gen, pc, cbGen, registered, inBatch, pending, pollerHolds, staleHolds, bad, fdOpen, hupq⟩ := s
+  obtain ⟨loc, st, gen, pc, cbGen, registered, inBatch, pending, pollerHolds, staleHolds, ownerHolds, bad, fdOpen, hupq⟩ := s
   cases a <;> simp only [step, guardedAct] at hs hg <;> (repeat' split at hs) <;> (try cases hs) <;>
     (try (simp only [Good] at *; grind))
 
